@@ -70,10 +70,14 @@ class UpdateExtractor(BaseExtractor):
                     holder.add_read(read_table)
 
         if holder.write:
+            # the tables in the order the statement reads them: holder.read is a set, and its iteration order (which
+            # decides the winner when two tables share a bare name) would follow the string hash seed
+            read = holder.read
+            read_tables = [t for t in holder.graph.nodes if t in read]
             for tgt_col in columns:
                 tgt_col.parent = list(holder.write)[0]
                 for src_col in tgt_col.to_source_columns(
-                    holder.get_alias_mapping_from_table_group(list(holder.read))
+                    holder.get_alias_mapping_from_table_group(read_tables)
                 ):
                     holder.add_column_lineage(src_col, tgt_col)
 
